@@ -180,13 +180,12 @@ Proof. exact md_plain_document_holds. Qed.
 Print Assumptions md_plain_document.
 
 (* LaTeX: [preamble] \begin{thebibliography}{L} (\bibitem[label]{key} text)* \end{thebibliography},
-   one \bibitem per entry in order, L the label of an entry of maximal width *)
+   one \bibitem per entry in order; L is the label of an entry of maximal width, empty for no entry *)
 Theorem latex_document : forall enc T php encoding preamble es out,
   write_to_stream enc T BLatex php encoding preamble es = Ok out ->
-  exists e texts, In e es /\ (forall e', In e' es -> (e_width e' <= e_width e)%Z) /\
-    rendered enc T BLatex es texts /\
+  exists ll texts, is_longest es ll /\ rendered enc T BLatex es texts /\
     out = (if is_empty preamble then [] else preamble ++ [c_nl]) ++
-          (lit "\begin{thebibliography}{") ++ e_label e ++ [c_rbrace] ++
+          (lit "\begin{thebibliography}{") ++ ll ++ [c_rbrace] ++
           concat (map (fun p => latex_entry (e_key (fst p)) (e_label (fst p)) (snd p)) (combine es texts)) ++
           [c_nl; c_nl] ++ (lit "\end{thebibliography}") ++ [c_nl].
 Proof. exact latex_document_holds. Qed.
@@ -199,18 +198,12 @@ Theorem latex_document_balanced : forall enc T php encoding preamble es out,
 Proof. exact latex_document_balanced_holds. Qed.
 Print Assumptions latex_document_balanced.
 
-(* a non-empty bibliography whose texts render is written; the EMPTY one is not: the LaTeX back end
-   raises ValueError (max() of no labels) -- outside the property's quantifier (no rich text is
-   rendered), recorded in the notes with the proposed one-line repair *)
-Theorem latex_document_total : forall enc T php encoding preamble es texts, es <> [] ->
+(* every list of entries whose texts render is written -- the empty bibliography included (the longest
+   label of no entries is the empty string: /repo fix 14eda69) *)
+Theorem latex_document_total : forall enc T php encoding preamble es texts,
   rendered enc T BLatex es texts -> exists out, write_to_stream enc T BLatex php encoding preamble es = Ok out.
-Proof. exact latex_nonempty_total. Qed.
+Proof. exact latex_total. Qed.
 Print Assumptions latex_document_total.
-
-Theorem latex_empty_bibliography_crashes : forall enc T php encoding preamble,
-  write_to_stream enc T BLatex php encoding preamble [] = Crash.
-Proof. exact latex_empty_bibliography_holds. Qed.
-Print Assumptions latex_empty_bibliography_crashes.
 
 (* HTML: the document is the fixed prologue (DOCTYPE, <html>, the <head> block, <body>, <dl>), the
    entries, </dl></body></html>; the entries part is well-formed, so is the document's element
@@ -281,3 +274,7 @@ Example codec_hypotheses_satisfiable :
   (forall a b r, forallb alpha a = true -> is_brace b = true -> id (id a ++ b :: r) = id (id a) ++ b :: id r) /\
   (forall c, alpha c = true -> is_brace c = false).
 Proof. exact codec_hyps_identity. Qed.
+Example empty_bibliography_example :
+  write_to_stream (enc_tab ex_enc) ex_latex BLatex false (lit "UTF-8") [] [] =
+    Ok ((lit "\begin{thebibliography}{}") ++ [c_nl; c_nl] ++ (lit "\end{thebibliography}") ++ [c_nl]).
+Proof. vm_compute. auto. Qed.
